@@ -212,7 +212,7 @@ func (g *generator) leaf() D {
 }
 
 var nilTypes = []string{"int", "bool", "string", "float64", "time", "struct:AInt", "struct:Inner", "slice:int",
-	"map:string", "ptr:int", "iface", "marshaler:mint", "marshaler:pmoney", "marshaler:pany", "uint8"}
+	"map:string", "ptr:int", "iface", "marshaler:mint", "marshaler:pmoney", "marshaler:pany", "uint8", "struct:Node"}
 
 func (g *generator) nilPtr() D {
 	return D{"g": "ptr", "nil": true, "to": nilTypes[g.r.Intn(len(nilTypes))]}
@@ -314,6 +314,12 @@ func (g *generator) declared(ty string, depth int) D {
 		return st("OuterU", g.emb("inner", st("inner", g.fld("Z", sub()))), g.fld("Y", sub()))
 	case "OuterS":
 		return st("OuterS", g.emb("Inner", inner()), g.fld("X", sub()))
+	case "Node": // a finite list of 1..3 nodes
+		tail := D{"g": "ptr", "nil": true, "to": "struct:Node"}
+		for i := g.r.Intn(3); i > 0; i-- {
+			tail = D{"g": "ptr", "nil": false, "v": st("Node", g.fld("Val", g.leaf()), g.fld("Next", tail))}
+		}
+		return st("Node", g.fld("Val", sub()), g.fld("Next", tail))
 	case "OuterMV":
 		return st("OuterMV", g.emb("MIDURL", D{"g": "marshaler", "ty": "idurl", "a": D{"id": g.r.Intn(10), "url": "u"}}), g.fld("Y", sub()))
 	case "OuterPM":
@@ -325,7 +331,7 @@ func (g *generator) declared(ty string, depth int) D {
 	}
 }
 
-var declaredNames = []string{"AInt", "Inner", "AbU", "OuterE", "OuterP", "OuterU", "OuterS", "Uni", "OuterMV", "OuterPM", "OuterPMP"}
+var declaredNames = []string{"AInt", "Inner", "AbU", "OuterE", "OuterP", "OuterU", "OuterS", "Uni", "OuterMV", "OuterPM", "OuterPMP", "Node"}
 
 // value generates a descriptor of depth <= depth.
 func (g *generator) value(depth int) D {
@@ -359,6 +365,16 @@ func (g *generator) value(depth int) D {
 		xs := []interface{}{}
 		for i := g.r.Intn(4); i > 0; i-- {
 			xs = append(xs, g.value(depth-1))
+		}
+		if g.r.Intn(6) == 0 { // one shared pointer used twice
+			for {
+				t := g.value(depth - 1)
+				if pointable(t) {
+					p := D{"g": "ptr", "nil": false, "share": true, "v": t}
+					xs = append(xs, p, p)
+					break
+				}
+			}
 		}
 		return D{"g": "slice", "nil": false, "typed": false, "v": xs}
 	case 6: // []T
